@@ -446,13 +446,17 @@ class SqlalchemyRender:
                         else:
                             condition = self.to_expression(item['condition'])
 
-                        join_type = item['join_type']
+                        join_type = ' '.join(str(item['join_type']).upper().split())
                         method = 'join'
                         is_full = False
-                        if join_type == 'LEFT JOIN':
+                        if join_type in ('LEFT JOIN', 'LEFT OUTER JOIN'):
                             method = 'outerjoin'
-                        if join_type == 'FULL JOIN':
+                        elif join_type in ('FULL JOIN', 'FULL OUTER JOIN'):
+                            method = 'outerjoin'
                             is_full = True
+                        elif join_type in ('RIGHT JOIN', 'RIGHT OUTER JOIN'):
+                            # sqlalchemy has no right join: rendering it as an inner join would change the result
+                            raise NotImplementedError(f'Unsupported join type: {join_type}')
 
                         # perform join
                         query = getattr(query, method)(
